@@ -42,7 +42,10 @@ VARIABLES vers,     \* sequence of versions [idx, list, txn]
           todo,     \* calls of the sequential prefix still to be made
           hist      \* ghost: the scenario (prefix + operations), hidden by VIEW
 vars == <<vers, hv, lastRes, nops, todo, hist>>
-view == <<vers, hv, lastRes, nops, todo>>
+\* committed calls are in vers; rejected calls are kept apart so that every rejected call is explored (and
+\* printed) too; only the detours of checkouts are folded
+Rejected == SelectSeq(Tail(hist), LAMBDA c : c.res # "ok")
+view == <<vers, hv, lastRes, nops, todo, Rejected>>
 
 NV == Len(vers)
 Latest == vers[NV]
